@@ -136,6 +136,9 @@ func rootState(l *lexer) stateFn {
 				case '(':
 					l.emitType(TokenStringTemplate)
 					l.openBrackets++
+				default:
+					l.backupOne()
+					return l.error(fmt.Errorf("unrecognized character: %#U", '\\'))
 				}
 			} else {
 				return l.error(fmt.Errorf("unrecognized character: %#U", r))
@@ -245,8 +248,6 @@ func numberState(l *lexer) stateFn {
 
 		default:
 			if (r >= 'a' && r <= 'z') || (r >= 'A' && r <= 'Z') {
-				l.next()
-
 				tokenType := l.scanDecimalOrFixedPointRemainder()
 				if tokenType == TokenDecimalIntegerLiteral {
 					tokenType = TokenUnknownBaseIntegerLiteral
